@@ -53,7 +53,8 @@ func (a *Auth) ParseAuthorization(authStr string) (err error) {
 			return err
 		}
 
-		tmp := strings.Split(string(authInfo), ":")
+		// rfc7617: user-id不能包含冒号，password可以，以第一个冒号作为分隔
+		tmp := strings.SplitN(string(authInfo), ":", 2)
 		if len(tmp) != 2 {
 			return fmt.Errorf("invalid Authorization:%s", authStr)
 		}
